@@ -2,11 +2,13 @@
    Property theorems only: each is closed by `exact <lemma>`; Print Assumptions must report a closed term.
 
    Proved: read-your-own-write for every scalar attribute (int / str, unique or not), for every schema and every history of the
-   session model that reached no dirty site.  The general statement (every read - references, collections, counts, E[pk], get, select - answers
-   from the logical state of the session) is NOT proved: it is checked on generated histories against the reference state of
+   session model that reached no dirty site; and, for Stage 1 schemas WITHOUT Required references, that a loaded scalar attribute the program
+   did not write in this transaction reads as the value in the object's row of the transaction's database (C10_scalar_read_except_known, from
+   the coherence invariant of Proofs/SessionCoh.v).  The general statement (every read - references, collections, counts, E[pk], get, select -
+   answers from the logical state of the session) is NOT proved: it is checked on generated histories against the reference state of
    tools/session_spec.py (on the implementation) and refuted for five known defects (Findings/C10.v).  Stage 1 schema space. *)
 Require Import PonyV.Model.SessionBase PonyV.Model.SessionDb PonyV.Model.Session.
-Require Import PonyV.Proofs.SessionIdx PonyV.Proofs.SessionTxn.
+Require Import PonyV.Proofs.SessionIdx PonyV.Proofs.SessionTxn PonyV.Proofs.SessionCoh.
 
 (* after obj.a = z succeeded, obj.a reads z - whatever happened before (loaded or new object, flushed or not) *)
 Theorem C10_read_after_set_except_known : forall sch, wf_schema sch = true -> forall ops h a z o at_ s',
@@ -31,6 +33,31 @@ Theorem C10_read_after_set_step : forall sch s h a z o at_ s',
   set_op sch s h a (AInt z) = (s', ROk) -> snd (read_op sch s' h a) = RVal (VInt z).
 Proof. exact read_after_set_plain. Qed.
 Print Assumptions C10_read_after_set_step.
+
+(* Stage 1 schemas without Required references, clean histories: a loaded scalar attribute of a saved or loaded object reads as its cached value;
+   unless the program wrote it in this transaction (then C10_read_after_set_scalar_except_known says what it reads) that value is the one in the
+   object's row of the transaction's database - the row exists unless the object is only known by its key (a seed) -, and the remembered
+   database value (dbvals) always is the row's value *)
+Theorem C10_scalar_read_except_known : forall sch, no_req_refs sch = true -> wf_schema sch = true -> forall ops h a o ob z v,
+  s_dirty (run sch ops) = O -> hget (run sch ops) h = Some o -> get_obj (run sch ops) o = Some ob ->
+  status_eqb (o_st ob) SCreated = false -> is_gone (o_st ob) = false -> o_pk ob = Some z ->
+  scalar sch (o_ent ob) a = true -> oval ob a = Some v -> notref v = true ->
+  snd (read_op sch (run sch ops) h a) = RVal v /\
+  (forall r, In r (tab (s_db (run sch ops)) (o_ent ob)) -> r_pk r = z ->
+      (owbit ob a = false -> col r a = v) /\ (forall w, odbval ob a = Some w -> notref w = true -> col r a = w)) /\
+  (o_seed ob = false -> exists r, In r (tab (s_db (run sch ops)) (o_ent ob)) /\ r_pk r = z).
+Proof. exact scalar_read_is_database_value. Qed.
+Print Assumptions C10_scalar_read_except_known.
+
+(* non-vacuity: in a new session an object is fetched, one attribute is written; the other one still reads as the row's value *)
+Example C10_scalar_read_nonvacuous :
+  let sch := [mkEnt false [mkAttr KInt false true; mkAttr KStr false false]] in
+  let ops := [ONew 0 (Some 1%Z) [(0, AInt 5%Z); (1, AStr [97%Z])]; OCommit; ONewSession; OGetPk 0 (AInt 1%Z); OSet 0 0 (AInt 6%Z)]%nat in
+  no_req_refs sch = true /\ wf_schema sch = true /\ s_dirty (run sch ops) = O /\ hget (run sch ops) 0%nat = Some 0%nat /\
+  option_map (fun ob => (o_st ob, o_pk ob, o_seed ob, oval ob 1%nat, owbit ob 1, owbit ob 0)) (get_obj (run sch ops) 0%nat) =
+     Some (SModified, Some 1%Z, false, Some (VStr [97%Z]), false, true) /\
+  snd (read_op sch (run sch ops) 0%nat 1%nat) = RVal (VStr [97%Z]) /\ tab (s_db (run sch ops)) 0%nat = [mkRow 1%Z [VInt 5%Z; VStr [97%Z]]].
+Proof. vm_compute. repeat split; reflexivity. Qed.
 
 (* non-vacuity: unflushed creations, a moved reference and a deletion are what E[pk], a collection read, count(), get() and select() show *)
 Example C10_nonvacuous :
